@@ -488,16 +488,28 @@ fn run_teardown(dec: Dec, opts: &RunOpts) -> RunOut {
     if use_stub {
         let single = sim.dec.chance(K::Cfg, 1, 2);
         let stub = crate::c17::RingStub::new(entries, entries * 2, single, false, false, 0, 0);
-        // stub-side fault: only the setup call itself (the stub has no failing mmaps)
+        // stub-side faults: the setup call itself, or the 1st/2nd/3rd mmap of the ring (the
+        // two-mapping layout's failure paths exist only here: real kernels map both rings at once)
         stub.fail_setup.set(matches!(fail, Some((0, _))));
+        if let Some((k, _)) = fail {
+            if k >= 1 {
+                stub.fail_mmap_at.set(Some(k - 1));
+            }
+        }
         sim.set_kernel(&stub);
         label = format!("stub-{}", if single { "single-mmap" } else { "two-mmaps" });
         sched::with_installed(&mut sim, || {
             let r = setup_io_uring(entries, IoUringParamFlags::empty(), 0, 0);
-            fired = stub.fail_setup.get();
+            fired = stub.fail_setup.get() || stub.mmap_failed.get();
+            if stub.mmap_failed.get() && r.is_ok() {
+                viol = Some(Violation { sig: "setup|error-swallowed".into(), detail: "a failing mmap of the ring was reported as success".into() });
+            }
             drop(r);
             let maps = stub.maps.borrow().clone();
             let unmaps = stub.unmaps.borrow().clone();
+            if viol.is_some() {
+                return;
+            }
             for (i, m) in maps.iter().enumerate() {
                 let n = unmaps.iter().filter(|u| *u == m).count();
                 if n == 0 {
